@@ -9,6 +9,7 @@ package table
 
 import (
 	"container/list"
+	"sync"
 	"time"
 
 	enc "github.com/named-data/ndnd/std/encoding"
@@ -17,6 +18,11 @@ import (
 // RibTable represents the Routing Information Base (RIB).
 type RibTable struct {
 	RibEntry
+
+	// mutex synchronizes accesses to the RIB, which is updated by the
+	// management thread and by face goroutines (on face teardown).
+	// Lock order: RIB mutex, then the FIB mutex (never the reverse).
+	mutex sync.RWMutex
 }
 
 // RibEntry represents an entry in the RIB table.
@@ -162,6 +168,9 @@ func (r *RibEntry) updateNexthopsEnc() {
 
 // AddRoute adds or updates a RIB entry for the specified prefix.
 func (r *RibTable) AddEncRoute(name enc.Name, route *Route) {
+	r.mutex.Lock()
+	defer r.mutex.Unlock()
+
 	name = name.Clone()
 	node := r.fillTreeToPrefixEnc(name)
 	if node.Name == nil {
@@ -183,8 +192,13 @@ func (r *RibTable) AddEncRoute(name enc.Name, route *Route) {
 	readvertiseAnnounce(name, route)
 }
 
-// GetAllEntries returns all routes in the RIB.
+// GetAllEntries returns all routes in the RIB. The returned entries are
+// snapshots (name and copies of the routes) that are safe to read without
+// holding the RIB mutex.
 func (r *RibTable) GetAllEntries() []*RibEntry {
+	r.mutex.RLock()
+	defer r.mutex.RUnlock()
+
 	entries := make([]*RibEntry, 0)
 	// Walk tree in-order
 	queue := list.New()
@@ -199,7 +213,16 @@ func (r *RibTable) GetAllEntries() []*RibEntry {
 
 		// If has any routes, add to list
 		if len(ribEntry.routes) > 0 {
-			entries = append(entries, ribEntry)
+			snapshot := &RibEntry{
+				Name:   ribEntry.Name,
+				depth:  ribEntry.depth,
+				routes: make([]*Route, len(ribEntry.routes)),
+			}
+			for i, route := range ribEntry.routes {
+				routeCopy := *route
+				snapshot.routes[i] = &routeCopy
+			}
+			entries = append(entries, snapshot)
 		}
 	}
 	return entries
@@ -212,6 +235,9 @@ func (r *RibEntry) GetRoutes() []*Route {
 
 // RemoveRoute removes the specified route from the specified prefix.
 func (r *RibTable) RemoveRouteEnc(name enc.Name, faceID uint64, origin uint64) {
+	r.mutex.Lock()
+	defer r.mutex.Unlock()
+
 	entry := r.findExactMatchEntryEnc(name)
 	if entry != nil {
 		for i, route := range entry.routes {
@@ -230,10 +256,19 @@ func (r *RibTable) RemoveRouteEnc(name enc.Name, faceID uint64, origin uint64) {
 }
 
 // CleanUpFace removes the specified face from all entries. Used for clean-up after a face is destroyed.
-func (r *RibEntry) CleanUpFace(faceId uint64) {
+func (r *RibTable) CleanUpFace(faceId uint64) {
+	r.mutex.Lock()
+	defer r.mutex.Unlock()
+
+	r.RibEntry.cleanUpFace(faceId)
+}
+
+// cleanUpFace removes the specified face from this entry and all entries below it.
+// The caller must hold the RIB mutex.
+func (r *RibEntry) cleanUpFace(faceId uint64) {
 	// Recursively clean children
 	for child := range r.children {
-		child.CleanUpFace(faceId)
+		child.cleanUpFace(faceId)
 	}
 
 	if r.Name == nil {
